@@ -45,7 +45,7 @@ Definition opt_point_text (md : mode) (o : option tp) : rtext :=
     | DOk s => RtOk s
     | DOverflow => RtOverflow
     | DUnmodelled => RtUnmodelled
-    | DBounds | DSyntax | DErr => RtValue
+    | DBounds | DSyntax | DErr | DBadInput => RtValue
     end
   end.
 
